@@ -16,7 +16,9 @@ PY_BUILTINS = {"len", "range", "int", "str", "ord", "chr", "list", "sorted", "ma
 SPEC_FORMS = {"old", "forall", "exists", "implies", "result", "unfold", "iff", "seq_unit", "seq_empty", "seq_extract",
               "dyn_int", "dyn_list", "dyn_str", "dyn_none", "dyn_get", "is_none", "ite", "arr_get", "arr_len", "ghost",
               "count", "raised", "fresh_const", "pw2", "cls_name", "str_contains", "dyn_float", "to_dyn", "let",
-              "map_has", "seq_contains", "str_to_int", "int_to_str"}
+              "map_has", "seq_contains", "str_to_int", "int_to_str", "d_int", "d_float", "d_list", "d_chars", "d_is_int",
+              "d_is_float", "d_is_list", "d_is_str", "d_is_dict", "d_is_none", "bitlen", "d_mk_list", "d_mk_str", "d_mk_float",
+              "d_mk_int", "d_mk_dict_empty", "d_set"}
 
 
 class EvalMixin:
